@@ -133,8 +133,8 @@ def twoStepFresnel(Uin, wvl, d1, d2, z):
     B = numpy.exp(1j * k/(2*Dz1) * (x1a**2 + y1a**2) )
     C = fouriertransform.ft2(Uin * numpy.exp(1j * k/(2*Dz1) * (x1**2 + y1**2)), d1)
     Uitm = A*B*C
-    #Observation plane
-    Dz2 = z - Dz1
+    #Observation plane (z - Dz1, written so that it does not cancel for very small magnifications)
+    Dz2 = -m * Dz1 if m != 1 else z - Dz1
 
     #coordinates
     x2,y2 = numpy.meshgrid( numpy.arange(-N/2., N/2.) * d2,
